@@ -10,12 +10,13 @@ let fuel = nat_of_int 1000
 let fopt = function None -> "out-of-fuel" | Some v -> h v
 
 (* round 2: get_root_of_unity (asserts panic in every profile) and from_bytes_with_padding (hand model) *)
-let grou v ok = if ok then h v else "panic"
+(* the side condition is tested first: for a wild n the shift amount of the generated term is astronomically large *)
+let grou f ok n = if ok n then h (f n) else "panic"
 let fb = function FieldBytes.FbOk v -> h v | FieldBytes.FbAssertLen | FieldBytes.FbDeserFailed -> "panic"
 
 let eval = function
-  | [ "f64.grou"; n ] -> grou (F64.f64_get_root_of_unity (z n)) (F64.f64_get_root_of_unity_ok (z n))
-  | [ "f62.grou"; n ] -> grou (F62.f62_get_root_of_unity (z n)) (F62.f62_get_root_of_unity_ok (z n))
+  | [ "f64.grou"; n ] -> grou F64.f64_get_root_of_unity F64.f64_get_root_of_unity_ok (z n)
+  | [ "f62.grou"; n ] -> grou F62.f62_get_root_of_unity F62.f62_get_root_of_unity_ok (z n)
   | [ "f128.grou"; n ] ->
       if F128.f128_get_root_of_unity_ok fuel (z n) then fopt (F128.f128_get_root_of_unity fuel (z n)) else "panic"
   | [ "f62.exp_vartime"; a; b ] -> fopt (F62.f62_exp_vartime fuel (z a) (z b))
